@@ -5,7 +5,7 @@ NOTES = ("Every check rebuilds the harness from /repo's working tree (go build -
 NOT_APPLICABLE = {}
 CHECKS = {
  "C07": {
-  "text": "Over tables REGENERATED every run (the letter list, the plural format, the linked engine's keyword table) Lean proves for ALL indices: variable names pairwise distinct, never a keyword, their plurals never a keyword nor a variable name; generated identifiers gen_<hint>_<n> are injective in n for all hints; the package name is a valid identifier for every profile name; clause bindings are distinct (C02.bindings_distinct). The scaling matrix (every constraint kind x 8 path shapes, width to 40/60 quantified constraints, depth to 8/30, up to 100 validations, random formulas, odd profile names) must compile.",
+  "text": "Over tables REGENERATED every run (the letter list, the plural format, the linked engine's keyword table) Lean proves for ALL indices: variable names pairwise distinct, never a keyword, their plurals never a keyword nor a variable name; generated identifiers gen_<hint>_<n> are injective in n for all hints; the package name is a valid identifier for every profile name; clause bindings are distinct (C02.bindings_distinct). The scaling matrix (every constraint kind x 8 path shapes, width to 40/60 quantified constraints, nesting depth to 8 (thorough 10: the engine's compile time grows about 3.7x per level), up to 100 validations, random formulas, messages with 0..6 placeholders incl. repeated ones, odd profile names) must compile.",
   "note": "Partial: that the engine accepts the rest of the emitted code (safety, typing) is not modelled; the matrix is the search for a failing profile. Trusted: Lean kernel; table extractors.",
   "technique": "Lean 4 proof over regenerated identifier/keyword tables (unbounded in the index) + scaling compile matrix as search",
   "ref": "DESIGN.md 7/C07",
@@ -23,13 +23,13 @@ CHECKS = {
   "ref": "DESIGN.md 7/C05",
  },
  "C06": {
-  "text": "Lean proves that each remaining iteration over a Go map is order-insensitive: inserting the entries of a map with distinct keys in any permutation yields the same lookups (insertAll_perm, iriContext_perm), and permuting the fields of any object anywhere in a report tree permutes - and does not change - the ids assigned (assignIds_perm); the inventory of range-over-map sites and go statements is regenerated with go/packages and pinned (sites_expected, no_go_statements); the old GetMapKeys order is shown to leak (old_order_leaks). Search: generated code and fixed-clock reports hashed in N fresh processes must coincide.",
+  "text": "Lean proves that each remaining iteration over a Go map is order-insensitive: inserting the entries of a map with distinct keys in any permutation yields the same lookups (insertAll_perm, iriContext_perm), and permuting the fields of any object anywhere in a report tree permutes - and does not change - the ids assigned (assignIds_perm); the inventory of range-over-map sites and go statements is regenerated with go/packages and pinned (sites_expected, no_go_statements); the old GetMapKeys order is shown to leak (old_order_leaks). Search: generated code and fixed-clock reports hashed in N fresh processes (fixed and permuted histories, conflicting prefix bindings) must coincide; 2..64 concurrent goroutines mixing all entry points must return byte for byte what the serial calls returned.",
   "note": "Partial: determinism inside OPA, json-gold, yaml.v3 and encoding/json is observed only. Trusted: Lean kernel; the go/packages inventory extractor.",
-  "technique": "Lean 4 proof (permutation invariance lemmas) over a regenerated inventory of map iterations + fresh-process byte comparison as search",
+  "technique": "Lean 4 proof (permutation invariance lemmas) over a regenerated inventory of map iterations + fresh-process and concurrent-vs-serial byte comparison as search",
   "ref": "DESIGN.md 7/C06",
  },
  "C08": {
-  "text": "Regenerated every run from the sources and from the LINKED engine: the deny-list, the engine's built-in table, and every call into the engine's API. Lean proves forbidden is a subset of the deny-list, the deny-list names exist in the engine, there is one compile site and it passes the deny-list, and on a term model a denied call is found at any depth. The matrix compiles a profile for every built-in x 12 embedding positions x 4 call syntaxes: rejected-as-unsafe iff on the deny-list, forbidden ones rejected everywhere, nothing evaluated.",
+  "text": "Regenerated every run from the sources and from the LINKED engine: the deny-list, the engine's built-in table, and every call into the engine's API. Lean proves forbidden is a subset of the deny-list, the deny-list names exist in the engine, there is one compile site and it passes the deny-list, and on a term model a denied call is found at any depth. The matrix compiles a profile for every built-in x 20 embedding positions x 4 call syntaxes x debug flag: rejected-as-unsafe iff on the deny-list, forbidden ones rejected everywhere - also when the module has a second defect (keywords used as names, syntax or type errors, unknown functions) - and nothing is evaluated.",
   "note": "Trusted: Lean kernel; OPA's capability check itself (modelled, tied by the exhaustive matrix in the thorough tier); extractor.",
   "technique": "Lean 4 proofs over regenerated tables (decide) and a term-level induction + exhaustive compile matrix against the linked engine",
   "ref": "DESIGN.md 7/C08",
@@ -47,7 +47,7 @@ CHECKS = {
   "ref": "DESIGN.md 7/C12",
  },
  "C13": {
-  "text": "Lean proves lex(quote s) = s for every string (every Char: quotes, backslashes, controls, U+2028/9, astral), that the literal ends exactly at its closing quote whatever follows, that sprintf over %-escaped segments renders exactly the interleaving, and (C13Message) that the whole message pipeline renders the specification. Tied by comparing the real RegoString and ParseMessageExpression with the model on hostile strings, the engine's own lexer reading literals back, and end-to-end profileName / sourceShapeName / resultMessage / list matching.",
+  "text": "Lean proves lex(quote s) = s for every string (every Char: quotes, backslashes, controls, U+2028/9, the byte-order mark, astral), that the literal ends exactly at its closing quote whatever follows, that sprintf over %-escaped segments renders exactly the interleaving, and (C13Message) that the whole message pipeline renders the specification. Tied by comparing the real RegoString and ParseMessageExpression with the model on hostile strings, the engine's own lexer reading literals back, and end-to-end profileName / sourceShapeName / resultMessage / list matching.",
   "note": "Trusted: Lean kernel; OPA's string lexer and sprintf restricted to %% and %v (modelled, tied differentially); yaml.v3. Covered paste sites: profile name, validation name, message, message variable path, in/containsAll/containsSome values, pattern. IRIs derived from prefix declarations are not covered.",
   "technique": "Lean 4 proof by induction on the string (quoting round trip, printf escaping) + differential correspondence with hostile strings",
   "ref": "DESIGN.md 7/C13",
@@ -65,13 +65,13 @@ CHECKS = {
   "ref": "DESIGN.md 7/C16",
  },
  "C03": {
-  "text": "Lean theorems over a model of level resolution -> Rego level sets -> BuildReport: severity_is_level (a result carries severity S iff its validation is listed under S, defined and firing), conforms_iff, warnings_dont_affect_conforms, result_key_iff_nonempty, profileName_eq, dateCreated_iff, config_only_touches, undefined_skipped; for all profiles, firing relations and configurations. Tied to the code by random level distributions (duplicates, empty/absent levels, undefined names, names/profile names equal to language keys) x graphs x report configurations through the real ValidateWithConfiguration.",
+  "text": "Lean theorems over a model of level resolution -> Rego level sets -> BuildReport: severity_is_level (a result carries severity S iff its validation is listed under S, defined and firing), conforms_iff, warnings_dont_affect_conforms, result_key_iff_nonempty, profileName_eq, dateCreated_iff, config_only_touches, undefined_skipped; for all profiles, firing relations and configurations. Tied to the code by random level distributions (duplicates, empty/absent levels, undefined names, names/profile names equal to language keys) x graphs x report configurations through all four validating entry points (explicit configuration and clock; default configuration and wall clock), debug flag on and off, profile names over a hostile alphabet (BMP and astral).",
   "note": "Trusted: Lean kernel; the model of parseValidationLevel/rule heads/report[level]/BuildReport; OPA set semantics (duplicates collapse).",
   "technique": "Lean 4 proof over the report model + differential correspondence on report headers",
   "ref": "DESIGN.md 7/C03",
  },
  "C18": {
-  "text": "Lean proves write_exact (with the open flags found in the source, any prior file state ends as exactly the report), stdout_exact, failure_no_stdout, and stale_tail for the flag set of 21a97f4; the flags and print calls are facts regenerated from cmd/ every run. Tied by running the built acv binary over prior file states x subcommands x good/bad inputs against the library output computed in-process.",
+  "text": "Lean proves write_exact (with the open flags found in the source, any prior file state ends as exactly the report), stdout_exact, failure_no_stdout, and stale_tail for the flag set of 21a97f4; the flags and print calls are facts regenerated from cmd/ every run. Tied by running the built acv binary over prior file states x subcommands x good/bad inputs, data whose spelling a re-encoder would change (number literals, escapes) and operational faults (missing files, missing arguments, output path in a missing directory) against the library output computed in-process.",
   "note": "Trusted: Lean kernel; os.OpenFile/Create/WriteString semantics as modelled; the read-only prior state exists only in the model (root in the sandbox).",
   "technique": "Lean 4 proof over a file-state model with regenerated flag facts + differential runs of the built CLI",
   "ref": "DESIGN.md 7/C18",
@@ -83,20 +83,20 @@ CHECKS = {
   "ref": "DESIGN.md 7/C04",
  },
  "C09": {
-  "text": "Lean proves on the regenerated skeleton that Validate = ProcessProfile ; ValidateCompiled for every outcome of every external step (validate_is_compile_then_validateCompiled), that the pkg entry points are thin wrappers, and - for an engine whose Eval is a pure function of (compiled profile, document) - that any history of documents yields at each position the fresh result (history_independent). Tied by histories (repeats, failing and malformed documents) through one PreparedEvalQuery compared byte for byte with fresh validations.",
+  "text": "Lean proves on the regenerated skeleton that Validate = ProcessProfile ; ValidateCompiled for every outcome of every external step (validate_is_compile_then_validateCompiled), that the pkg entry points are thin wrappers, and - for an engine whose Eval is a pure function of (compiled profile, document) - that any history of documents yields at each position the fresh result (history_independent). Tied by histories (repeats, failing and malformed documents, lexical documents, OTHER profiles with conflicting prefix bindings validated in between) through one PreparedEvalQuery compared byte for byte with fresh validations.",
   "note": "Partial: purity/freshness of OPA's PreparedEvalQuery.Eval is the hypothesis of the history theorem and is only observed, not proved. Trusted: Lean kernel, skeleton translator.",
   "technique": "Lean 4 proof (induction on the history; kernel evaluation over the regenerated skeleton) + history correspondence against fresh validations",
   "ref": "DESIGN.md 7/C09",
  },
  "C11": {
-  "text": "On the regenerated skeleton, for every validating entry point and every outcome (ok/error/panic) of every external step, Lean proves: events are a prefix of the stage order, well bracketed, no overlap; the channel is closed exactly once and last whenever the call returns; CompileProfile closes on error only; compile-then-validate closes once; the milestone fold (regenerated from pkg/milestones) yields one milestone per completed stage pairing each completion with an earlier start. Tied by real runs with a consumer goroutine for every failing stage x entry point.",
+  "text": "On the regenerated skeleton, for every validating entry point and every outcome (ok/error/panic) of every external step, Lean proves: events are a prefix of the stage order, well bracketed, no overlap; the channel is closed exactly once and last whenever the call returns; CompileProfile closes on error only; compile-then-validate closes once; the milestone fold (regenerated from pkg/milestones) yields one milestone per completed stage pairing each completion with an earlier start. Two extracted facts pin what `emit` and `close` stand for (emit_is_blocking_send, close_is_plain_close: the bodies of dispatchEvent and CloseEventChan). Tied by real runs with a consumer goroutine for every failing stage x entry point, incl. slow consumers on unbuffered and small channels.",
   "note": "Trusted: Lean kernel; skeleton translator; Go channel semantics. Assumes all sends/closes go through dispatchEvent/CloseEventChan inside the translated functions (the correspondence observes the real channel).",
   "technique": "Lean 4 kernel-evaluated theorems over all fault sequences of a regenerated skeleton + fault-injection correspondence with a real event channel",
   "ref": "DESIGN.md 7/C11",
  },
  "C17": {
-  "text": "On the regenerated skeleton with three outcomes per external step Lean proves every entry point returns report-or-error whenever the steps outside the recover guard do not panic, that the guard converts parser/generator panics into errors, and that without it a panic escapes. The search side runs hostile hand-written inputs, mutations of all fixtures and raw bytes through all five entry points under recover() with a timeout.",
-  "note": "Partial: panic-freedom and termination inside yaml.v3, json-gold, OPA, encoding/json and of the indexer/report builder are hypotheses of total_under_guard; they are only searched (fuzz), not proved. Stack exhaustion/OOM are outside the model.",
+  "text": "On the regenerated skeleton with three outcomes per external step Lean proves every entry point returns report-or-error whenever the steps outside the recover guard do not panic, that the guards (GenerateRego: parser and generator; NormalizeOrError: the JSON-LD processor) convert panics into errors, and that without a guard a panic escapes. The search side runs hostile hand-written inputs, IRI references no URL parser accepts at every IRI position, EVERY 1-byte input and every 2-byte input over the bytes special to YAML/JSON (base64 transport), mutations of all fixtures and raw bytes through all five entry points under recover() with a timeout.",
+  "note": "Partial: panic-freedom inside yaml.v3, OPA, encoding/json and of the indexer/report builder, and termination everywhere, are hypotheses of total_under_guard; they are only searched (fuzz), not proved. Stack exhaustion/OOM are outside the model.",
   "technique": "Lean 4 kernel-evaluated theorems over a regenerated skeleton (ok/err/panic per step) + structured fuzzing as the search for a failing input",
   "ref": "DESIGN.md 7/C17",
  },
@@ -107,7 +107,7 @@ CHECKS = {
   "ref": "DESIGN.md 7/C01",
  },
  "C02": {
-  "text": "Lean theorems (clauses_denote, count_is_card, alt_is_union, seq_is_composition, inverse_is_converse, bindings_distinct) prove for every path and every graph that the union of the traversal clauses the generator emits is the relational denotation of the path; the traversal model is tied to internal/generator/path.go by running real validations on random paths x graphs and comparing reached values and counts with the model.",
+  "text": "Lean theorems (clauses_denote, count_is_card, alt_is_union, seq_is_composition, inverse_is_converse, bindings_distinct) prove for every path and every graph that the union of the traversal clauses the generator emits is the relational denotation of the path; the traversal model is tied to internal/generator/path.go by running real validations on random paths x graphs and comparing reached values, counts, reached nodes and - through a uniqueValues validation - the ARRAY of values (one entry per route) with the model. The first failing case of a run is minimised.",
   "note": "Trusted: Lean kernel; the hand-written transliteration of traverse*/aggregateResultsIntoSet; OPA's evaluation of nested_nodes/search_subjects/nodes_array (modelled by stepItems, tied only differentially); json-gold flattening of the generated flat documents.",
   "technique": "Lean 4 proof by mutual structural induction on the path + differential correspondence (real pkg.Validate vs compiled Lean driver)",
   "ref": "DESIGN.md 7/C02",
